@@ -893,6 +893,7 @@ func c10Partition(repo, out string, args []string) error {
 	o.p("/- GENERATED by /verif/go/facts (mode c10.partition) from modeling/mesh.go and modeling/marching/canvas.go.")
 	o.p("   Do not edit: regenerated from the working tree by ./check C10 before every build. -/")
 	o.p("import PolyVerif.Model.Par")
+	o.p("import PolyVerif.Model.ParChan")
 	o.p("")
 	o.p("set_option linter.unusedVariables false")
 	o.p("")
